@@ -149,7 +149,6 @@ _struct_dict = {
 }
 
 
-@lru_cache(maxsize=65536)
 def write_struct(representation_code: RepresentationCode, value: Any) -> bytes:
     """Convert a value to bytes according to the RP66 V1 spec.
 
@@ -159,10 +158,26 @@ def write_struct(representation_code: RepresentationCode, value: Any) -> bytes:
 
     Returns:
         Value converted to bytes depending on representation_code and RP66 V1 spec.
+
+    Note:
+        Results are cached only if the bytes are fully determined by the (type and) value of the argument:
+        -0.0 and 0.0 are equal, but are represented differently, and objects (e.g. EFLRItem) are mutable.
     """
+
+    if isinstance(value, (str, int, datetime)) or (isinstance(value, float) and value != 0):
+        return _write_struct_cached(representation_code, value)
+    return _write_struct(representation_code, value)
+
+
+def _write_struct(representation_code: RepresentationCode, value: Any) -> bytes:
+    """Convert a value to bytes according to the RP66 V1 spec; see write_struct."""
 
     func = _struct_dict.get(representation_code, None)  # get a converter corresponding to the repr code
     if func:
         return func(value)  # type: ignore  # that's the point, we're calling for any type
 
     return representation_code.convert(value)  # if no converter was found, use the one built in the enum
+
+
+# cached version of _write_struct; 'typed' so that e.g. 1, 1.0, and True are not mixed up
+_write_struct_cached = lru_cache(maxsize=65536, typed=True)(_write_struct)
